@@ -98,7 +98,15 @@ func start(t *testing.T) (*Server, *pgxpool.Pool) {
 	noErr(t, err)
 	pool, err := wpg.NewPool(ctx, url)
 	noErr(t, err)
-	t.Cleanup(func() { pool.Close(); s.Close() })
+	t.Cleanup(func() {
+		done := make(chan struct{})
+		go func() { pool.Close(); close(done) }() // blocks while a failed test still holds a connection
+		select {
+		case <-done:
+		case <-time.After(2 * time.Second):
+		}
+		s.Close()
+	})
 	return s, pool
 }
 
@@ -235,7 +243,7 @@ func TestTxVisibility(t *testing.T) {
 	eq(t, nums(s, "ig"), []string{"1", "2"})
 	var kinds []string
 	for _, e := range s.Log() {
-		kinds = append(kinds, fmt.Sprint(e.Conn, e.Kind, e.InTx, e.Err))
+		kinds = append(kinds, fmt.Sprintf("%d%s %v %s", e.Conn, e.Kind, e.InTx, e.Err))
 	}
 	eq(t, kinds[len(kinds)-6:], []string{"1begin false ", "2begin false ", "1exec true ", "2exec true ", "1commit true ", "2commit true 23505"})
 }
@@ -300,7 +308,7 @@ func TestCopyFrom(t *testing.T) {
 	noErr(t, err)
 	eq(t, n, int64(5000))
 	noErr(t, s.InsertRow("tcopy", map[string]Value{"from": "w", "i": 1, "b": []byte{9}}))
-	eq(t, code(s.InsertRow("tcopy", map[string]Value{"from": "w", "i": 1})), "23505")
+	eq(t, fmt.Sprint(s.InsertRow("tcopy", map[string]Value{"from": "w", "i": 1})), `23505: duplicate key value violates unique constraint "u_tcopy"`)
 }
 
 func TestDependencyQuery(t *testing.T) {
@@ -407,6 +415,63 @@ func TestMigrateDiffDDL(t *testing.T) {
 	noErr(t, pool.QueryRow(ctx, "select current_database()").Scan(&db))
 }
 
+// Every single-token deletion / duplication / neighbour swap of the known
+// statements must be parsed, planned and executed without a panic.
+func TestMutationRobustness(t *testing.T) {
+	s := New()
+	c := newConn(s, 1, nil)
+	total, accepted := 0, 0
+	for _, q := range []string{updateQ, deleteQ, latestQ, depQ, pruneQ, `select pg_notify('a-b', $1)`, `copy "t" ( "a", "b" ) from stdin binary;`,
+		"create table if not exists x(a int, \"from\" numeric(78,0) not null default 5)", "create unique index if not exists u_x on x using btree (a, b desc)",
+		"alter table shovel.sources add column if not exists c text", "select column_name, data_type from information_schema.columns where table_schema = 'public' and table_name = $1"} {
+		toks, ok := lex(q)
+		eq(t, ok, true)
+		for i := range toks {
+			for m := 0; m < 3; m++ {
+				var parts []string
+				for j, tk := range toks {
+					switch {
+					case j == i && m == 0:
+					case j == i && m == 1:
+						parts = append(parts, q[tk.a:tk.b], q[tk.a:tk.b])
+					case j == i && m == 2 && j+1 < len(toks):
+						parts = append(parts, q[toks[j+1].a:toks[j+1].b])
+					case j == i+1 && m == 2:
+						parts = append(parts, q[toks[i].a:toks[i].b])
+					default:
+						parts = append(parts, q[tk.a:tk.b])
+					}
+				}
+				for _, st := range parseSQL(strings.Join(parts, " ")) {
+					if total++; st.err != nil {
+						continue
+					}
+					r := &run{db: s.db.clone(), c: c}
+					var oids []uint32
+					if _, perr := r.safely(func() (_ *result, perr *pgErr) { oids, _, perr = r.plan(st); return }); perr != nil {
+						eq(t, perr.code == "XXBUG", false)
+						continue
+					}
+					accepted++
+					if testing.Verbose() && len(st.sql) < 400 {
+						t.Log(strings.Join(strings.Fields(st.sql), " "))
+					}
+					s.mu.Lock()
+					_, perr := c.exec(st, make([]Value, len(oids)), nil)
+					s.mu.Unlock()
+					if perr != nil && perr.code == "XXBUG" {
+						t.Fatalf("%s: %v", st.sql, perr)
+					}
+				}
+			}
+		}
+	}
+	if accepted == 0 || accepted*2 > total {
+		t.Fatalf("suspicious acceptance rate %d/%d", accepted, total)
+	}
+	t.Logf("accepted %d of %d mutants", accepted, total)
+}
+
 // scenario is one shovel-like unit of work: begin, insert, copy, notify, commit.
 func scenario(pool *pgxpool.Pool) error {
 	tx, err := pool.Begin(ctx)
@@ -459,7 +524,7 @@ func TestFaults(t *testing.T) {
 						errs = append(errs, e.Kind+":"+e.Err)
 					}
 					if e.Kind == "connlost" {
-						lost = append(lost, fmt.Sprint(e.Conn, e.InTx))
+						lost = append(lost, fmt.Sprintf("%d%v", e.Conn, e.InTx))
 					}
 				}
 				inTx := fmt.Sprint(kind != "begin")
@@ -626,7 +691,7 @@ func TestEndToEndTask(t *testing.T) {
 		trace = append(trace, fmt.Sprintf("%s %s %d", e.Kind, e.Table, e.NRows))
 	}
 	eq(t, trace, []string{"begin  0", "query " + tu + " 1", "exec " + tu + " 1", "exec transfers 1", "query " + tu + " 1", "commit  0",
-		"begin  0", "copy transfers 1", "exec  1", "exec " + tu + " 1", "commit  0"})
+		"begin  0", "copy transfers 1", "query  1", "exec " + tu + " 1", "commit  0"})
 	noErr(t, task.Converge())
 	eq(t, task.Converge(), shovel.ErrNothingNew)
 	eq(t, nums(s, "erc20"), []string{"1", "2", "3", "4", "5", "6"})
